@@ -32,6 +32,9 @@ def restore(k):
 
 
 def run_unit(unit):
+    if unit.get('what') == 'csv-history':
+        yield from run_csv_history(unit)
+        return
     from geophires_x import MPFReservoir, LHSReservoir
     resmodel, L, T = unit['model'], unit['L'], unit['T']
     mod = {1: MPFReservoir, 2: LHSReservoir}[resmodel]
@@ -93,5 +96,108 @@ def run_unit(unit):
     yield log.result()
 
 
+
+
+# ---- data read for one request is not handed to the next one (district-heating demand / temperature profiles) -------------------------------
+def run_csv_history(unit):
+    """SurfacePlantDistrictHeating.read_csv called twice in one process - two requests: file f1 column c1, then file f2 column c2 - with the
+    column numbers solver integers and 'f2 is the same file as f1' a solver Boolean; pandas is a stand-in whose cells are uninterpreted values
+    cell(file, column, row).  The second call must return column c2 of file f2."""
+    from geophires_x import SurfacePlantDistrictHeating as DH
+    ROWS = 3
+    cell = z3.Function('csv_cell', z3.IntSort(), z3.RealSort(), z3.IntSort(), z3.RealSort())      # (file id, column index, row) -> value
+    cfg = {'harness': 'csv-history', 'rows': ROWS, 'columns': [1, 2, 3]}
+    log = harness.UnitLog(cfg)
+
+    class Col:
+        def __init__(self, fid, col):
+            self.fid, self.col = fid, col
+
+        def to_numpy(self):
+            c = core.lift(self.col)
+            return core.as_symarray([SymReal(cell(self.fid, c, i)) for i in range(ROWS)])
+
+    class ILoc:
+        def __init__(self, fid):
+            self.fid = fid
+
+        def __getitem__(self, key):
+            return Col(self.fid, key[1])
+
+    class Frame:
+        def __init__(self, fid):
+            self.iloc = ILoc(fid)
+    FILES = {'demand_a.csv': 1, 'demand_b.csv': 2}
+
+    class PD:
+        @staticmethod
+        def read_csv(name, *a, **k):
+            return Frame(FILES[str(name)])
+
+    def drive(symbolic, inp=None):
+        core.HASH_CONST = False
+        if symbolic:
+            c1, c2 = core.symint('c1', 1, 3), core.symint('c2', 1, 3)
+            same = bool(core.symbool('second request names the same file'))
+        else:
+            c1, c2, same = int(inp['c1']), int(inp['c2']), bool(inp['second request names the same file'])
+        f1, f2 = 'demand_a.csv', ('demand_a.csv' if same else 'demand_b.csv')
+        mem = getattr(DH, '_CSV_PROFILE_CACHE', None)
+        if isinstance(mem, dict):
+            mem.clear()        # (a fresh process for this history)
+        for attr in dir(DH):
+            obj = getattr(DH, attr, None)
+            if hasattr(obj, 'cache_clear'):
+                obj.cache_clear()
+        with shim.shadow((DH, 'pd', PD)):
+            sp = DH.SurfacePlantDistrictHeating.__new__(DH.SurfacePlantDistrictHeating)
+            DH.SurfacePlantDistrictHeating.read_csv(sp, f1, c1)
+            got = DH.SurfacePlantDistrictHeating.read_csv(sp, f2, c2)
+        want = [SymReal(cell(FILES[f2], core.lift(c2) - 1, i)) for i in range(ROWS)]
+        return list(got), want
+
+    zv = {'c1': z3.Int('c1'), 'c2': z3.Int('c2'), 'second request names the same file': z3.Bool('second request names the same file')}
+
+    def concrete(inp):
+        # real pandas on two real files with distinguishable cells
+        import tempfile
+        import shutil
+        d = tempfile.mkdtemp(prefix='symx_c08csv_')
+        try:
+            paths = {}
+            for nm, base in (('demand_a.csv', 100), ('demand_b.csv', 500)):
+                paths[nm] = os.path.join(d, nm)
+                with open(paths[nm], 'w') as f:
+                    f.write('h1,h2,h3\n' + ''.join(f'{base + 10 * r + 1},{base + 10 * r + 2},{base + 10 * r + 3}\n' for r in range(ROWS)))
+            c1, c2, same = int(inp['c1']), int(inp['c2']), bool(inp['second request names the same file'])
+            f1, f2 = 'demand_a.csv', ('demand_a.csv' if same else 'demand_b.csv')
+            mem = getattr(DH, '_CSV_PROFILE_CACHE', None)
+            if isinstance(mem, dict):
+                mem.clear()
+            sp = DH.SurfacePlantDistrictHeating.__new__(DH.SurfacePlantDistrictHeating)
+            DH.SurfacePlantDistrictHeating.read_csv(sp, paths[f1], c1)
+            got = [float(x) for x in DH.SurfacePlantDistrictHeating.read_csv(sp, paths[f2], c2)]
+            base = 100 if f2 == 'demand_a.csv' else 500
+            want = [float(base + 10 * r + c2) for r in range(ROWS)]
+            return got != want, {'first request': [f1, c1], 'second request': [f2, c2], 'second request received': got, 'column requested holds': want}
+        finally:
+            shutil.rmtree(d, ignore_errors=True)
+    k = 0
+    for pr in core.explore(lambda: drive(True), max_paths=200):
+        log.path(pr)
+        k += 1
+        if pr.aborted:
+            continue
+        if pr.error is not None:
+            raise pr.error
+        got, want = pr.value
+        harness.reachable(log, pr.ctx, 1000)
+        ok = len(got) == len(want)
+        prop = z3.And([core.lift(g) == core.lift(w) for g, w in zip(got, want)]) if ok else False
+        harness.discharge(log, pr.ctx, 'district-heating profile: the second request in a process receives the column of the file it names (not data kept from the first request)',
+                          prop, zv, concrete, sample=(k == 1))
+    yield log.result()
+
+
 def units(tier):
-    return [{'harness': 'global-state', 'model': mdl, 'L': 2, 'T': 2} for mdl in (1, 2)]
+    return [{'harness': 'global-state', 'model': mdl, 'L': 2, 'T': 2} for mdl in (1, 2)] + [{'harness': 'global-state', 'what': 'csv-history'}]
